@@ -49,13 +49,13 @@ for k, v in refs.items():
     if rb:
         per[p][1] += 1
         per[p][2].append(k + " -> " + "; ".join(f"{q}: {', '.join(r)}" for q, r in sorted(rb.items())))
-out.append("| rewrites written against | number | reported by any of the 18 checks |")
+out.append("| rewrites written against | number | reported by any of the checks |")
 out.append("|---|---|---|")
 for p in sorted(per):
     out.append(f"| {p} | {per[p][0]} | {per[p][1] or 'none'}{(' (' + ' / '.join(per[p][2]) + ')') if per[p][2] else ''} |")
 tot = sum(v[0] for v in per.values()); bad = sum(v[1] for v in per.values())
 out.append("")
-out.append(f"{tot} behaviour-preserving rewrites, {bad} reported (each rewrite is run against all 18 checks, not only its own).")
+out.append(f"{tot} behaviour-preserving rewrites, {bad} reported (each rewrite is run against all checks, not only its own).")
 for n in expected_notes:
     out.append("")
     out.append("Expected report, not counted above — " + n)
